@@ -227,6 +227,7 @@ package actor
 //@   ensures full-rejects: result == (old(q.size) < 256)
 //@   ensures rejected-unchanged: !result ==> q.size == old(q.size) && q.head == old(q.head) && q.buf == old(q.buf)
 //@   ensures appended: result ==> q.size == old(q.size) + 1 && q.head == old(q.head) && q.buf[(q.head+old(q.size))%256] == s
+//@   ensures publishes-the-size-hint: result ==> q.sizeAtomic.v == int32(q.size)
 //@   ensures others-kept: result ==> forall i int :: 0 <= i && i < old(q.size) ==> q.buf[(q.head+i)%256] == old(q.buf[(q.head+i)%256])
 //@   modifies localQueue.buf, localQueue.tail, localQueue.size, localQueue.sizeAtomic
 
@@ -235,6 +236,7 @@ package actor
 //@   ensures wf: lq_wf(q)
 //@   ensures empty-gives-nil: old(q.size) == 0 ==> result == nil && q.size == 0 && q.head == old(q.head) && q.buf == old(q.buf)
 //@   ensures takes-oldest: old(q.size) > 0 && old(q.sizeAtomic.v) != 0 ==> result == old(q.buf[q.head]) && q.size == old(q.size) - 1 && q.head == (old(q.head)+1)%256
+//@   ensures publishes-the-size-hint: old(q.size) > 0 && old(q.sizeAtomic.v) != 0 ==> q.sizeAtomic.v == int32(q.size)
 //@   ensures hint-zero-takes-nothing: old(q.sizeAtomic.v) == 0 ==> result == nil && q.size == old(q.size) && q.head == old(q.head) && q.buf == old(q.buf)
 //@   ensures rest-kept: forall i int :: 1 <= i && i < old(q.size) ==> q.buf[(old(q.head)+i)%256] == old(q.buf[(old(q.head)+i)%256])
 //@   modifies localQueue.buf, localQueue.head, localQueue.size, localQueue.sizeAtomic
@@ -243,6 +245,7 @@ package actor
 // the oldest is returned, the next k-1 are appended to dst in order, the rest
 // stay in q in order. Nothing is lost, nothing is duplicated.
 //@ func (*localQueue).stealHalf(q, dst)
+//@   also C02
 //@   requires lq_wf(q) && lq_wf(dst)
 //@   loop 1 invariant progress: 1 <= i && i <= stolen && stolen == (old(q.size)+1)/2 && old(q.size) > 0 && q != dst
 //@   loop 1 invariant q-cursor: q.head == (old(q.head)+i)%256 && q.size == old(q.size) - i && q.tail == old(q.tail)
@@ -254,6 +257,7 @@ package actor
 //@   ensures same-queue-or-empty: (q == dst || old(q.size) == 0) ==> result == nil && q.size == old(q.size) && dst.size == old(dst.size)
 //@   ensures returns-oldest: q != dst && old(q.size) > 0 ==> result == old(q.buf[q.head])
 //@   ensures conserves-count: q != dst && old(q.size) > 0 ==> q.size + dst.size + 1 == old(q.size) + old(dst.size)
+//@   ensures publishes-both-size-hints: q != dst && old(q.size) > 0 ==> q.sizeAtomic.v == int32(q.size) && dst.sizeAtomic.v == int32(dst.size)
 //@   ensures bounded-steal: q != dst && old(q.size) > 0 ==> old(q.size) - q.size <= (old(q.size)+1)/2 && old(q.size) - q.size >= 1
 //@   ensures moved-in-order: q != dst && old(q.size) > 0 ==> forall j int :: 1 <= j && j < old(q.size) - q.size ==> dst.buf[(old(dst.tail)+j-1)%256] == old(q.buf[(q.head+j)%256])
 //@   ensures dst-kept: q != dst ==> forall j int :: 0 <= j && j < old(dst.size) ==> dst.buf[(dst.head+j)%256] == old(dst.buf[(dst.head+j)%256])
